@@ -63,10 +63,21 @@ def _install_dykstra(instr, H, check_contract):
 
     for mod, modname in ((dm, 'model'), (dc, 'controller'), (ds, 'solver'), (dt, 'trust_region')):
         orig = mod.dykstra
+        sig = inspect.signature(orig)
 
-        def dyk(P, x0, max_iter=100, tol=1e-10, _orig=orig, _modname=modname):
+        def dyk(*a, _orig=orig, _modname=modname, _sig=sig, **kw):
+            # signature-transparent: arguments are bound to the signature of the routine under test exactly as the caller passed
+            # them; only the projector list is replaced by counting pass-throughs
             if H.in_probe:
-                return _orig(P, x0, max_iter=max_iter, tol=tol)
+                return _orig(*a, **kw)
+            ba = _sig.bind(*a, **kw)
+            names = list(_sig.parameters)
+            P = ba.arguments[names[0]]
+            x0 = ba.arguments[names[1]]
+            full = _sig.bind(*a, **kw)
+            full.apply_defaults()
+            max_iter = full.arguments.get('max_iter', 100)
+            tol = full.arguments.get('tol', 1e-10)
             counts = [0] * len(P)
 
             def wrap(i, f):
@@ -76,14 +87,15 @@ def _install_dykstra(instr, H, check_contract):
                 return g
             P2 = [wrap(i, f) for i, f in enumerate(P)]
             xin = np.array(x0, dtype=float, copy=True)
-            out = _orig(P2, x0, max_iter=max_iter, tol=tol)
+            ba.arguments[names[0]] = P2
+            out = _orig(*ba.args, **ba.kwargs)
             d = sim.DykCall()
             d.seq = H.seq
             d.mod = _modname
             d.func = sys._getframe(1).f_code.co_name
             d.p = len(P)
             d.tol = float(tol)
-            d.max_iter = int(max_iter)
+            d.max_iter = max_iter if isinstance(max_iter, int) else float(max_iter)
             d.sweeps = counts[0] if counts else 0
             d.ncalls = sum(counts)
             d.xin = xin
@@ -183,9 +195,13 @@ def _install_trsbox(instr, H):
     import dfols.controller as dc
     orig = dc.trsbox
 
-    def trsbox(xopt, g, H_, sl, su, delta, *a, **kw):
-        args = [np.array(v, dtype=float, copy=True) for v in (xopt, g, H_, sl, su)]
-        out = orig(xopt, g, H_, sl, su, delta, *a, **kw)
+    sig = inspect.signature(orig)
+
+    def trsbox(*a, **kw):
+        ba = sig.bind(*a, **kw)
+        args = [np.array(ba.arguments[nm], dtype=float, copy=True) for nm in ('xopt', 'g', 'H', 'sl', 'su')]
+        delta = ba.arguments['delta']
+        out = orig(*a, **kw)
         try:
             check_trsbox(H, args[0], args[1], args[2], args[3], args[4], float(delta), out)
         except Exception as e:  # harness fault, never a property verdict
@@ -294,9 +310,14 @@ def _install_c13(instr, H):
     for mod, modname in ((dc, 'controller'), (dm, 'model')):
         orig = mod.trsbox_geometry
 
-        def tg(xbase, c, g, lower, upper, Delta, *a, _orig=orig, _modname=modname, **kw):
-            args = [np.array(v, dtype=float, copy=True) for v in (xbase, g, lower, upper)]
-            out = _orig(xbase, c, g, lower, upper, Delta, *a, **kw)
+        sig = inspect.signature(orig)
+
+        def tg(*a, _orig=orig, _modname=modname, _sig=sig, **kw):
+            ba = _sig.bind(*a, **kw)
+            args = [np.array(ba.arguments[nm], dtype=float, copy=True) for nm in ('xbase', 'g', 'lower', 'upper')]
+            c = ba.arguments['c']
+            Delta = ba.arguments['Delta']
+            out = _orig(*a, **kw)
             try:
                 check_trsbox_geometry(H, args[0], float(c), args[1], args[2], args[3], float(Delta), np.array(out, dtype=float), _modname)
             except Exception as e:
@@ -324,8 +345,8 @@ def _install_c13(instr, H):
 
     orig_trs = dc.Controller.__dict__['trust_region_step']
 
-    def trs(self_, params, *a, **kw):
-        out = orig_trs(self_, params, *a, **kw)
+    def trs(self_, *a, **kw):
+        out = orig_trs(self_, *a, **kw)
         if self_.h is not None:
             try:
                 check_pred_reduction(H, self_, out)
@@ -417,10 +438,14 @@ def _install_dirs(instr, H):
     for name in ('random_directions_within_bounds', 'random_orthog_directions_within_bounds'):
         orig = getattr(dc, name)
 
-        def gen(num_pts, delta, lower, upper, *a, _orig=orig, _name=name, **kw):
-            lo = np.array(lower, dtype=float, copy=True)
-            hi = np.array(upper, dtype=float, copy=True)
-            out = _orig(num_pts, delta, lower, upper, *a, **kw)
+        sig = inspect.signature(orig)
+
+        def gen(*a, _orig=orig, _name=name, _sig=sig, **kw):
+            ba = _sig.bind(*a, **kw)
+            num_pts, delta = ba.arguments['num_pts'], ba.arguments['delta']
+            lo = np.array(ba.arguments['lower'], dtype=float, copy=True)
+            hi = np.array(ba.arguments['upper'], dtype=float, copy=True)
+            out = _orig(*a, **kw)
             try:
                 caller = sys._getframe(1).f_code.co_name
                 check_dirs(H, _name, caller, int(num_pts), float(delta), lo, hi, np.array(out, dtype=float))
